@@ -414,7 +414,8 @@ impl Authorizer {
 
         for (i, check) in self.authorizer_block_builder.checks.iter().enumerate() {
             let c = check.convert(&mut self.symbols);
-            let mut successful = false;
+            // `reject if` passes unless one of its alternatives matches
+            let mut successful = check.kind == CheckKind::Reject;
 
             for query in check.queries.iter() {
                 let query = query.convert(&mut self.symbols);
@@ -435,7 +436,7 @@ impl Authorizer {
                         self.world
                             .query_match_all(query, &rule_trusted_origins, &self.symbols)?
                     }
-                    CheckKind::Reject => !self.world.query_match(
+                    CheckKind::Reject => self.world.query_match(
                         query,
                         usize::MAX,
                         &rule_trusted_origins,
@@ -449,7 +450,7 @@ impl Authorizer {
                 }
 
                 if res {
-                    successful = true;
+                    successful = check.kind != CheckKind::Reject;
                     break;
                 }
             }
@@ -466,7 +467,8 @@ impl Authorizer {
 
         if let Some(blocks) = self.blocks.as_ref() {
             for (j, check) in blocks[0].checks.iter().enumerate() {
-                let mut successful = false;
+                // `reject if` passes unless one of its alternatives matches
+                let mut successful = check.kind == CheckKind::Reject;
 
                 let authority_trusted_origins = TrustedOrigins::from_scopes(
                     &blocks[0].scopes,
@@ -494,7 +496,7 @@ impl Authorizer {
                             &rule_trusted_origins,
                             &self.symbols,
                         )?,
-                        CheckKind::Reject => !self.world.query_match(
+                        CheckKind::Reject => self.world.query_match(
                             query.clone(),
                             0,
                             &rule_trusted_origins,
@@ -508,7 +510,7 @@ impl Authorizer {
                     }
 
                     if res {
-                        successful = true;
+                        successful = check.kind != CheckKind::Reject;
                         break;
                     }
                 }
@@ -565,7 +567,8 @@ impl Authorizer {
                 );
 
                 for (j, check) in block.checks.iter().enumerate() {
-                    let mut successful = false;
+                    // `reject if` passes unless one of its alternatives matches
+                    let mut successful = check.kind == CheckKind::Reject;
 
                     for query in check.queries.iter() {
                         let rule_trusted_origins = TrustedOrigins::from_scopes(
@@ -587,7 +590,7 @@ impl Authorizer {
                                 &rule_trusted_origins,
                                 &self.symbols,
                             )?,
-                            CheckKind::Reject => !self.world.query_match(
+                            CheckKind::Reject => self.world.query_match(
                                 query.clone(),
                                 i + 1,
                                 &rule_trusted_origins,
@@ -601,7 +604,7 @@ impl Authorizer {
                         }
 
                         if res {
-                            successful = true;
+                            successful = check.kind != CheckKind::Reject;
                             break;
                         }
                     }
